@@ -333,7 +333,7 @@ pub fn check(prop: &str, tier: &str) -> i32 {
         }));
     }
     // watchdog: wall-clock cap for the batch, hang detection per run
-    let hang_ms: u64 = 120_000;
+    let hang_ms: u64 = 300_000; // wall clock; two orders of magnitude above the slowest deep run on a loaded machine
     loop {
         std::thread::sleep(std::time::Duration::from_millis(50));
         let now = t0.elapsed().as_millis() as u64;
